@@ -471,7 +471,7 @@ T('C13', 'twin-mutate-local-comprehension', GEN, '    akeys = set(a.keys())\n   
 T('C13', 'twin-output-copy-then-pop-on-copy', NBD, "        b_conj = copy.deepcopy({k: v for k, v in b.items() if k != 'data'})\n", "        b_conj = copy.deepcopy(b)\n        b_conj.pop('data')\n")
 
 # ------------------------------------------------------------------------------------------ C02
-M('C02', 'dict-leaf-loose-compare', GEN, '            if not compare_strict(avalue, bvalue):\n                di.replace(key, bvalue)', '            if avalue != bvalue:\n                di.replace(key, bvalue)', 'R02.1')
+M('C02', 'dict-leaf-loose-compare', GEN, '            if not strict_equal(avalue, bvalue):\n                di.replace(key, bvalue)', '            if avalue != bvalue:\n                di.replace(key, bvalue)', 'R02.1')
 M('C02', 'default-predicate-plain-eq', GEN, '    return defaultdict2(lambda: (compare_strict,), {})', '    return defaultdict2(lambda: (operator.__eq__,), {})', 'R02.1')
 M('C02', 'strict-helper-loses-type-test', GEN, '    return x == y and _json_number_type(x) is _json_number_type(y)', '    return x == y and True', 'R02.1')
 M('C02', 'early-equal-return-in-diff-dicts', GEN, '    akeys = set(a.keys())\n    bkeys = set(b.keys())\n\n    di = MappingDiffBuilder()\n\n    # Sorting keys in loops',
@@ -799,9 +799,10 @@ M('C17', 'diff-helper-empty-when-index-clean', GITF, _INLINE_DIFF, '    diff = _
 M('C17', 'inline-diff-reset-when-index-clean', GITF, "        diff = tree_base.diff(tree_remote, paths)\n", "        diff = tree_base.diff(tree_remote, paths)\n    if ref_remote == GitRefIndex and not repo.is_dirty(working_tree=False):\n        diff = ()\n", 'R17.3')
 M('C01', 'mime-bundle-differ-drops-one-sided-keys', NBD, "        add_mime_diff(key, avalue, bvalue, di)\n\n    for key in sorted(bkeys - akeys):\n        di.add(key, b[key])\n", "        add_mime_diff(key, avalue, bvalue, di)\n\n", 'R01.13')
 M('C02', 'dict-differ-drops-removed-keys', GEN, '    for key in sorted(akeys - bkeys):\n        if not _is_ignored(config, "/".join((path, key))):\n            di.remove(key)\n', '', 'R02.14')
-M('C01', 'nbpatch-skips-write-for-empty-diff', 'nbdime/nbpatchapp.py', "    if output_filename:\n        nbformat.write(after, output_filename)", "    if output_filename:\n        if not diff and os.path.exists(output_filename):\n            return 0\n        nbformat.write(after, output_filename)", 'R01.14')
-T('C01', 'twin-nbpatch-writes-then-returns', 'nbdime/nbpatchapp.py', "    if output_filename:\n        nbformat.write(after, output_filename)", "    if output_filename:\n        nbformat.write(after, output_filename)\n        return 0")
-M('C02', 'is-atomic-depth-cutoff', 'nbdime/diffing/config.py', "        try:\n            return self._atomic_paths[path]", "        if path is not None and path.count('/') > 64:\n            return True\n        try:\n            return self._atomic_paths[path]", 'R02.15')
+M('C01', 'nbpatch-skips-write-for-empty-diff', 'nbdime/nbpatchapp.py', "    if output_filename:\n        # Open the output only", "    if output_filename:\n        if not diff and os.path.exists(output_filename):\n            return 0\n        # Open the output only", 'R01.14')
+T('C01', 'twin-nbpatch-writes-then-returns', 'nbdime/nbpatchapp.py', "        with io.open(output_filename, \"wb\") as outfile:\n            outfile.write(data)\n", "        with io.open(output_filename, \"wb\") as outfile:\n            outfile.write(data)\n        return 0\n")
+# (since /repo compares the values it does not recurse into DEEPLY, declaring a deep container atomic only makes the diff coarser: a twin now)
+T('C02', 'twin-is-atomic-depth-cutoff', 'nbdime/diffing/config.py', "        try:\n            return self._atomic_paths[path]", "        if path is not None and path.count('/') > 64:\n            return True\n        try:\n            return self._atomic_paths[path]")
 M('C10', 'strategy-gates-line-merge', MG, "            base_lines = base.splitlines(True)\n            _merge_strings.recursion = True\n            try:\n                decisions = _merge_lists(\n                    base_lines, local_diff, remote_diff,\n                    path, parent_decisions, strategies)\n            finally:\n                # Ensure recursion stops even in case of exceptions\n                _merge_strings.recursion = False",
   "            base_lines = base.splitlines(True)\n            if strategy in ('use-local', 'use-remote') and len(base_lines) > 50:\n                decisions.conflict(path, local_diff, remote_diff, strategy)\n            else:\n                _merge_strings.recursion = True\n                try:\n                    decisions = _merge_lists(\n                        base_lines, local_diff, remote_diff,\n                        path, parent_decisions, strategies)\n                finally:\n                    _merge_strings.recursion = False", 'R10.8')
 M('C09', 'merged-notebook-post-processed', MNB, "    merged = apply_decisions(base, decisions)\n", "    merged = apply_decisions(base, decisions)\n    merged.metadata.pop('nbdime-conflicts', None)\n", 'R09.16')
@@ -997,3 +998,7 @@ T('C11', 'twin-clear-all-guarded-by-statement', STR, "        custom_diff = [op_
 M('C11', 'combine-patches-keeps-insertions-apart', STR, "                a.valuelist = a.valuelist + d.valuelist\n", "                newdiffs.append(d)\n", 'R11.14')
 M('C17', 'two-words-file-then-ref-treated-as-ref-pair', ARGS, "        if is_gitref(base) and not is_gitref(remote):\n            paths = remote\n            remote = None\n", "        if not is_gitref(remote):\n            paths = remote\n            remote = None\n", 'R17.17')
 M('C12', 'key-filter-wrapped-around-key-filter', NBD, "            notebook_differs[path] = diff_ignore_keys(inner, keys)\n", "            notebook_differs[path] = diff_ignore_keys(notebook_differs[path], subkeys)\n", 'R12.14')
+
+M('C01', 'nbpatch-output-opened-before-serialising', 'nbdime/nbpatchapp.py', "        with io.open(output_filename, \"wb\") as outfile:\n            outfile.write(data)\n", "        nbformat.write(after, output_filename)\n", 'R01.22')
+M('C02', 'strict-comparison-without-signed-zero-clause', GEN, "    if isinstance(x, float) and isinstance(y, float) and x == y == 0:\n        # 0.0 == -0.0, but they are written differently\n        return math.copysign(1.0, x) == math.copysign(1.0, y)\n", "", 'R02.23')
+M('C02', 'unrecursed-values-compared-shallowly', GEN, "            if not strict_equal(avalue, bvalue):\n                di.replace(key, bvalue)", "            if not compare_strict(avalue, bvalue):\n                di.replace(key, bvalue)", 'R02.23')
